@@ -432,6 +432,7 @@ static void body(void)
 int main(int argc, char **argv)
 {
     parse_opts(argc, argv);
+    run_prelude();
     if (!g_opts.sub) engine_error("--sub required");
     return mc_guarded_main(body);
 }
